@@ -362,18 +362,19 @@ type chain struct {
 	height int64
 	now    time.Time
 	// tendermint mirror: sets[h] = validator set that signs block h (h >= 1); grown as blocks end
-	sets      map[int64]tmSet
-	latestSet tmSet // S_h: all updates applied so far
-	everVals  map[string]tmVal
-	powerAt   map[int64]map[string]int64 // height -> addr -> power in sets[height]
-	committed [][]byte                   // txs of committed blocks, oldest first
-	blockTxs  [][]byte
-	blockCode []uint32 // DeliverTx codes of blockTxs
-	applyErr  string   // why Tendermint would have refused the last batch ("" = fine)
-	emptied   bool
-	lastView  *chainView
-	c         *Case
-	noViews   bool
+	sets         map[int64]tmSet
+	latestSet    tmSet // S_h: all updates applied so far
+	everVals     map[string]tmVal
+	powerAt      map[int64]map[string]int64 // height -> addr -> power in sets[height]
+	committed    [][]byte                   // txs of committed blocks, oldest first
+	blockTxs     [][]byte
+	blockCode    []uint32 // DeliverTx codes of blockTxs
+	setBeforeEnd tmSet    // Tendermint's set as it was when the current EndBlock's batch was produced
+	applyErr     string   // why Tendermint would have refused the last batch ("" = fine)
+	emptied      bool
+	lastView     *chainView
+	c            *Case
+	noViews      bool
 	// twin mode (C01): every transaction is delivered; its Mode and the block's queries describe extra
 	// read-only traffic that only the second instance receives (issued by the oracle)
 	deliverAll bool
@@ -598,6 +599,7 @@ func (ch *chain) run(o chainOracle) *Violation {
 		ci.Panic = safeCall(func() { ci.End = ch.app.EndBlock(abci.RequestEndBlock{Height: h}) })
 		if ci.Panic == nil {
 			ci.After = ch.viewAfter()
+			ch.setBeforeEnd = ch.latestSet
 			next, why := applyUpdates(ch.latestSet, ci.End.ValidatorUpdates)
 			ch.applyErr = why
 			if next != nil {
